@@ -57,6 +57,11 @@ fn gen_packed_calls(_tier: Tier, emit: Emit) {
         ("[]..., xs...", vec![sp(list(vec![])), sp(id("xs"))]),
         ("0, []..., xs..., 9", vec![Arg::E(int(0)), sp(list(vec![])), sp(id("xs")), Arg::E(int(9))]),
         ("1, 2", vec![Arg::E(int(1)), Arg::E(int(2))]),
+        // three and four packed arguments of different sizes
+        ("xs..., ys..., xs...", vec![sp(id("xs")), sp(id("ys")), sp(id("xs"))]),
+        ("ys..., xs..., ys..., 9", vec![sp(id("ys")), sp(id("xs")), sp(id("ys")), Arg::E(int(9))]),
+        ("0, xs..., []..., ys..., xs...", vec![Arg::E(int(0)), sp(id("xs")), sp(list(vec![])), sp(id("ys")), sp(id("xs"))]),
+        ("ys..., 5, xs..., (7,)...", vec![sp(id("ys")), Arg::E(int(5)), sp(id("xs")), sp(tuple(vec![int(7)]))]),
     ];
     let body_tuple = || tuple(vec![id("a"), id("b"), id("rest")]);
     let mk_f = |generator: bool| -> X {
